@@ -2,6 +2,7 @@
 C13 — a concrete instance of the hypotheses of `soundness_partial₁` (non-vacuity).
 -/
 import Gql.Proofs.SoundExec3
+import Gql.Proofs.SoundKeys
 import Gql.Exec.Values
 
 namespace Gql.Exec.Valid.Example
@@ -91,5 +92,44 @@ theorem exConf : Conforms exOps exS (.named "Query" true) exRoot := by
     exact ⟨by decide, .str [120], rfl, by simp⟩
   · simp only [Conforms]
     exact ⟨by decide, .int 7, rfl, by simp⟩
+
+/-- stage 3 example: a variable with default, a Boolean variable in `@skip`, a fragment spread,
+an inline fragment with type condition, a response key selected twice (merged) -/
+def exOp3 : Operation :=
+  { kind := .query, name := none,
+    vars := [⟨"v", .named "Int" false, some (.int 3)⟩, ⟨"b", .named "Boolean" true, none⟩],
+    sels := [.field none "a" [] [] [.spread "F" [], .inline (some "A") [] [.field none "id" [] [] []]],
+             .field none "n" [("x", .var "v")] [⟨"skip", [("if", .var "b")]⟩] []] }
+
+def exDoc3 : Doc :=
+  { ops := [exOp3],
+    frags := [{ name := "F", cond := "A",
+                sels := [.field none "id" [] [] [], .field (some "t") "__typename" [] [] []] }] }
+
+def exVars3 : Vars := [("v", .int 3), ("b", .bool false)]
+
+theorem exVarsOk3 : VarsOk exOp3.vars exVars3 := by
+  intro vd hvd _
+  simp only [exOp3, List.mem_cons, List.mem_nil_iff, or_false] at hvd
+  rcases hvd with rfl | rfl <;> decide
+
+theorem exVarsTyped3 : VarsTyped exS exOp3.vars exVars3 := by
+  intro vd hvd w hw
+  simp only [exOp3, List.mem_cons, List.mem_nil_iff, or_false] at hvd
+  rcases hvd with rfl | rfl
+  · simp only [exVars3, List.lookup] at hw
+    cases hw
+    simp only [pyConforms]
+    exact Or.inl (by decide)
+  · simp only [exVars3, List.lookup] at hw
+    have hb : ("b" == "v") = false := by decide
+    simp only [hb, beq_self_eq_true, Option.some.injEq] at hw
+    subst hw
+    simp only [pyConforms]
+    exact Or.inl (by decide)
+
+theorem exOpsV3 : OpsSoundV exOps exS exOp3.vars exVars3 := by
+  intro _ t d v _ _ _
+  simp [exOps]
 
 end Gql.Exec.Valid.Example
